@@ -79,3 +79,21 @@ def lattice_slice_cases(max_pts=2, L=4):
     for a in multisets:
         for b in multisets:
             yield {"A": a, "B": b}
+
+
+@st.composite
+def near_identical_pair(draw, max_size=5):
+    """B = a permuted copy of A whose coordinates are moved by (-3..3) * 10^-k * max|coord|, k in 3..15:
+    the regime where the true distance is tiny but not zero"""
+    fam = draw(diagram_family(count=1, min_size=1, max_size=max_size, allow_diag=False))
+    A = fam["dgms"][0]
+    k = draw(st.integers(3, 15))
+    s = max(abs(x) for p in A for x in p) or 1.0
+    eps = s * 10.0 ** (-k)
+    B = []
+    for b, d in A:
+        nb = b + draw(st.integers(-3, 3)) * eps
+        nd = d + draw(st.integers(-3, 3)) * eps
+        B.append([nb, max(nb, nd)])
+    perm = draw(st.permutations(list(range(len(A)))))
+    return {"fam": {"mode": fam["mode"], "scale": fam["scale"], "dgms": [A, [B[i] for i in perm]]}, "k": k}
